@@ -4,6 +4,7 @@ package main
 
 import (
 	"fmt"
+	"github.com/onheap/eval"
 	"math/rand"
 )
 
@@ -80,6 +81,13 @@ func c03Run(w *W, idx int) {
 	g := s.Make(r)
 	if s.Name == "wide-deep" {
 		g.Budget = 400
+	}
+	if k%13 == 6 {
+		// closed programs: no variables at all, only literals, constants and operators (registered ones declared stateless
+		// or not). Whatever constant folding leaves of them is evaluated anew by every evaluation.
+		g.BoolVars, g.IntVars, g.StrVars, g.IListVars, g.SListVars, g.ISetVars, g.SSetVars = nil, nil, nil, nil, nil, nil, nil
+		g.Stateless, g.Custom = true, true
+		w.Inc("closed_programs")
 	}
 	tree := g.Root(s.Dep(r))
 	if s.Name == "skeleton" {
@@ -171,6 +179,29 @@ func c03Program(w *W, r *rand.Rand, stratum string, tree *Node, bs []Binding, co
 				}
 				w.Fail("effects/"+kind+"/"+stratum, "observed fetches/operator calls differ from left-to-right short-circuit evaluation of the dumped tree\nexpected (?=optional): %s\nobserved:              %s\n%s\ndump: %s\nengine result: %s, reference error: %v",
 					effsText(env.Trace), effsText(rec.Effects), describeCase(v.Src, v.Cfg, b), oneLine(v.Dump), o, refErr)
+			}
+			// EvalBool is Eval plus a type check on the result: the same effects, every time it is called
+			if tree.Ty == TBool && refErr == nil {
+				for rep := 0; rep < 2; rep++ {
+					rec3 := &Recorder{}
+					var ob bool
+					o3 := guard(func() (eval.Value, error) {
+						var err error
+						ob, err = v.E.EvalBool(&eval.Ctx{VariableFetcher: fetcherFor(b, rec3)})
+						return ob, err
+					})
+					w.Evals++
+					w.Inc("evalbool_traces_compared")
+					if o3.Panic != nil {
+						w.Fail("eval-panic/"+normPanic(o3.Panic)+"@"+panicSite(o3.Stack), "EvalBool panicked: %v\n%s", o3.Panic, describeCase(v.Src, v.Cfg, b))
+						break
+					}
+					if !matchEffects(env.Trace, rec3.Effects) || !outcomeEq(o, o3) {
+						w.Fail("effects/evalbool/"+stratum, "EvalBool call %d on the same program: its fetches/operator calls or its result differ from Eval's\nexpected (?=optional): %s\nobserved:              %s\nEval: %s, EvalBool: %s\n%s\ndump: %s",
+							rep+1, effsText(env.Trace), effsText(rec3.Effects), o, o3, describeCase(v.Src, v.Cfg, b), oneLine(v.Dump))
+						break
+					}
+				}
 			}
 			// TryEval with every variable available evaluates the same program: the same effects are expected
 			// (only on fully bound bindings: TryEval treats an unbound variable as unavailable)
